@@ -51,6 +51,16 @@ class Machinery(Exception):
     """The observation machinery (not bita) failed; never a verdict."""
 
 
+def child_env(extra=None):
+    """Environment of every bita run: the caller's, minus backtrace symbolication (slow, noisy)."""
+    env = dict(os.environ)
+    env["RUST_BACKTRACE"] = "0"
+    env["RUST_LIB_BACKTRACE"] = "0"
+    if extra:
+        env.update(extra)
+    return env
+
+
 # ------------------------------------------------------------------------------------------------
 # strace: probing, running, parsing
 # ------------------------------------------------------------------------------------------------
@@ -88,7 +98,7 @@ def run_traced(argv, cwd, log_path, stdin_data=None, env=None, timeout=TIMEOUT):
     """Run argv under strace. -> dict(rc, stdout, stderr, timed_out, log_text)."""
     cmd = ["strace", "-f", "-qq", "-o", log_path, "-e", "trace=" + ",".join(trace_syscalls())] + list(argv)
     timed_out = False
-    p = subprocess.Popen(cmd, cwd=cwd, env=env,
+    p = subprocess.Popen(cmd, cwd=cwd, env=env if env is not None else child_env(),
                          stdin=subprocess.PIPE if stdin_data is not None else subprocess.DEVNULL,
                          stdout=subprocess.PIPE, stderr=subprocess.PIPE, start_new_session=True)
     try:
@@ -401,7 +411,7 @@ def is_allowed_nonfile(path):
 
 
 def run_plain(argv, cwd=None, stdin_data=None, env=None):
-    p = subprocess.run(argv, cwd=cwd, env=env, input=stdin_data,
+    p = subprocess.run(argv, cwd=cwd, env=env if env is not None else child_env(), input=stdin_data,
                        stdin=subprocess.DEVNULL if stdin_data is None else None,
                        stdout=subprocess.PIPE, stderr=subprocess.PIPE, timeout=TIMEOUT)
     return p
@@ -420,11 +430,14 @@ def parse_info(bita, archive_path):
     return m.group(1), int(s.group(1))
 
 
-def build_archive(bita, workdir, source, compress_args, tries=40):
-    """Setup helper: a *good* archive of `source` (bytes). Known defect F4 (temp file read back before
-    its last write landed) makes `bita compress` produce a short archive now and then; an archive is
-    only accepted when its size is the one its own header declares and it clones back to the source.
-    -> (archive_bytes, header_checksum_hex, attempts)"""
+def build_archive(bita, workdir, source, compress_args, tries=16):
+    """Setup helper: a *good* archive of `source` (bytes). Known defect F4 (CLI compress reads its temp
+    file back while the last write is still in flight) makes `bita compress` produce a short archive -
+    for some inputs nearly always. An archive is only accepted when its size is the one its own header
+    declares and it clones back to the source. The first attempts are plain runs; later ones run under
+    `strace -P <temp file> -e inject=openat:delay_enter=...`, which holds up the re-opening of the temp
+    file long enough for the write to land (setup only - never used for a checked run).
+    -> (archive_bytes, header_checksum_hex, "plain:<n>" | "delayed:<n>")"""
     os.makedirs(workdir, exist_ok=True)
     src = os.path.join(workdir, "source.bin")
     with open(src, "wb") as f:
@@ -432,7 +445,13 @@ def build_archive(bita, workdir, source, compress_args, tries=40):
     last = ""
     for attempt in range(1, tries + 1):
         arch = os.path.join(workdir, "a%d.cba" % attempt)
-        p = run_plain([bita, "compress", "-i", src] + list(compress_args) + [arch])
+        argv = [bita, "compress", "-i", src] + list(compress_args) + [arch]
+        how = "plain"
+        if attempt > 3:
+            how = "delayed"
+            argv = ["strace", "-f", "-qq", "-o", "/dev/null", "-P", rust_with_extension(arch, ".tmp"),
+                    "-e", "trace=openat", "-e", "inject=openat:delay_enter=150000"] + argv
+        p = run_plain(argv)
         if p.returncode != 0:
             raise Machinery("setup: bita compress failed: %s" % p.stderr[-400:])
         checksum, declared = parse_info(bita, arch)
@@ -449,7 +468,7 @@ def build_archive(bita, workdir, source, compress_args, tries=40):
                 last = "clone of fresh archive differs from source"
                 continue
         with open(arch, "rb") as f:
-            return f.read(), checksum, attempt
+            return f.read(), checksum, "%s:%d" % (how, attempt)
     raise Machinery("setup: no good archive after %d attempts (%s)" % (tries, last))
 
 
@@ -491,6 +510,23 @@ CHUNKERS = {
 ARCHIVE_NAMES = {"fixed": "archive.cba", "rollsum": "archive", "buzhash": "my.archive.v2.cba"}
 
 
+def available_compressions(bita):
+    """Compression types this build of bita offers (zstd / lzma are cargo features)."""
+    p = run_plain([bita, "compress", "--help"])
+    text = p.stdout.decode("utf-8", "replace")
+    m = re.search(r"--compression <TYPE>.*?\[possible values: ([^\]]+)\]", text, re.S)
+    if p.returncode != 0 or not m:
+        raise Machinery("cannot read the compression types from `bita compress --help`")
+    return [t.strip() for t in m.group(1).split(",")]
+
+
+def variant_args(name, comps):
+    args = list(VARIANTS[name])
+    if args[-1] not in comps:          # feature not built in: fall back
+        args[-1] = "brotli"
+    return args
+
+
 def clone_cases(tier):
     variants = ["fixed"] if tier == "quick" else ["fixed", "rollsum", "buzhash"]
     cases = []
@@ -504,8 +540,8 @@ def clone_cases(tier):
     return cases
 
 
-def compress_cases(tier):
-    comps = ["none", "brotli"] if tier == "quick" else ["none", "brotli", "zstd", "lzma"]
+def compress_cases(tier, available=("none", "brotli", "zstd", "lzma")):
+    comps = ["none", "brotli"] if tier == "quick" else [c for c in ("none", "brotli", "zstd", "lzma") if c in available]
     cases = []
     for inp in ("file", "stdin"):
         for chunker in ("fixed", "rollsum", "buzhash"):
@@ -799,7 +835,8 @@ class Env:
             variants, files, attempts = {}, {}, {}
             for name in self.variant_names:
                 source = gen_source(self.seed, name)
-                archive, checksum, tries = build_archive(bita, os.path.join(self.root, "setup", name), source, VARIANTS[name])
+                archive, checksum, tries = build_archive(bita, os.path.join(self.root, "setup", name), source,
+                                                         variant_args(name, available_compressions(bita)))
                 variants[name] = {"source": source, "archive": archive, "checksum": checksum, "name": name + ".cba",
                                   "material": _seed_material(source, name, self.seed)}
                 files[name + ".cba"] = archive
@@ -832,7 +869,8 @@ def run(ctx):
     t0 = time.time()
     tier = ctx.get("tier", "quick")
     seed = int(ctx.get("seed", 0))
-    cases = clone_cases(tier) + compress_cases(tier)
+    comps = available_compressions(ctx["bita"])
+    cases = clone_cases(tier) + compress_cases(tier, comps)
     variants = sorted({c["variant"] for c in cases if c["kind"] == "clone"})
     classes = {}
     modes_all, modes_blind = set(), set()
@@ -894,6 +932,7 @@ def run(ctx):
         "temp_file_names_observed": sorted(temp_names),
         "allowed_nonfile_write_opens_observed": sorted(nonfile_writes),
         "setup_archive_build_attempts": attempts,
+        "compressions_available": comps,
     }
     coverage.update(counters)
     return {
@@ -909,14 +948,22 @@ def run(ctx):
     }
 
 
+# Classes whose cause is a race inside bita (F4: temp file read back before its last write landed):
+# one re-run says little, so a replay repeats the case until it shows again (bounded).
+RACY_CLASSES = {"compress-archive-truncated": 60, "compress-roundtrip-mismatch": 60}
+
+
 def replay(ctx, detail):
     case = detail["case"]
     seed = int(detail.get("seed", 0))
+    want = detail.get("class")
     variants = [case["variant"]] if case["kind"] == "clone" else []
     with Env(ctx, seed, variants) as env_:
-        _, v, _ = run_case(env_, 0, case)
-    want = detail.get("class")
-    return any(cls == want for cls, _ in v) if want else bool(v)
+        for i in range(RACY_CLASSES.get(want, 1)):
+            _, v, _ = run_case(env_, i, case)
+            if any(cls == want for cls, _ in v) if want else bool(v):
+                return True
+    return False
 
 
 if __name__ == "__main__":
